@@ -74,6 +74,22 @@ def replay {M : Type} (rule : Rule Float M) (info : M → String) (eps : Float) 
   let fin := if truncated then "trunc" else showState run.1
   s!"ok {fin} T {run.2.length} {logged} {String.intercalate " " per}"
 
+/-- cgd: the previous descent direction is part of the logged history, so the model recomputes every direction from the
+    LOGGED previous direction (as it does with the logged iterates), not from its own previous result: rounding
+    differences between Eigen's and the model's reductions then do not accumulate through the β recurrence -/
+def cgdResync (rule : Rule Float (Option (List Float))) (recs : Array LsRec) : Rule Float (Option (List Float) × Nat) where
+  init := (rule.init, 0)
+  direction := fun m p c =>
+    let dm := rule.direction m.1 p c
+    (dm.1, (match recs[m.2]? with
+      | some r => some r.d
+      | none => dm.2, m.2 + 1))
+  update := fun m _ _ => m
+  convInit := rule.convInit
+  conv := rule.conv
+  guard := rule.guard
+  returnsCurrent := rule.returnsCurrent
+
 def cgdKind? : String → Option CgdKind
   | "cgd-hs" => some .hs | "cgd-fr" => some .fr | "cgd-pr" => some .pr | "cgd-cd" => some .cd | "cgd-ls" => some .ls
   | "cgd-dy" => some .dy | "cgd-n" => some .n | "cgd-dycd" => some .dycd | "cgd-dyhs" => some .dyhs
@@ -114,7 +130,7 @@ def handleC01 : Toks → Option String
       pure (replay (lbfgsRule history) (fun m => s!"{showBool m.descentOk} {m.hist.length}") eps maxEvals iters logged c0 recs)
     else match cgdKind? sid, quasiKind? sid with
       | some k, _ =>
-        pure (replay (cgdRule envF k eta orthotest) (fun _ => "1 0") eps maxEvals iters logged c0 recs)
+        pure (replay (cgdResync (cgdRule envF k eta orthotest) recs) (fun _ => "1 0") eps maxEvals iters logged c0 recs)
       | _, some k =>
         pure (replay (quasiRule envF k sr1r scaled n) (fun m => s!"{showBool m.descentOk} {if m.first then 1 else 0}")
           eps maxEvals iters logged c0 recs)
